@@ -191,6 +191,65 @@ pub fn ambient_env(u: &mut crate::gen::U) -> Vec<(String, String)> {
     v
 }
 
+/// Environment variable names the executable under test might read besides the four documented ones: every
+/// `[env: NAME]` its own --help texts declare and the upper-snake-case form of every long option they list
+/// (the name clap derives when `env` is added to an option). Discovered once per executable.
+pub fn discovered_env_names(exe: &Path) -> Vec<String> {
+    static CACHE: OnceLock<Mutex<std::collections::HashMap<PathBuf, Vec<String>>>> = OnceLock::new();
+    let cache = CACHE.get_or_init(Default::default);
+    if let Some(v) = cache.lock().unwrap().get(exe) {
+        return v.clone();
+    }
+    const SUBS: [&[&str]; 16] = [
+        &[], &["address"], &["export"], &["public-key"], &["new"], &["hex", "encode"], &["hex", "decode"], &["hash", "transaction"], &["hash", "message"],
+        &["hash", "typeddata"], &["hash", "data"], &["sign"], &["sign", "transaction"], &["sign", "message"], &["sign", "typeddata"], &["sign", "raw"],
+    ];
+    let mut names: Vec<String> = vec![];
+    for sub in SUBS {
+        let mut cmd = Command::new(exe);
+        cmd.args(sub.iter()).arg("--help").env_clear().stdin(Stdio::null()).stdout(Stdio::piped()).stderr(Stdio::piped());
+        let Ok(mut child) = cmd.spawn() else { continue };
+        let start = Instant::now();
+        loop {
+            match child.try_wait() {
+                Ok(Some(_)) => break,
+                Ok(None) if start.elapsed() > Duration::from_secs(10) => {
+                    let _ = child.kill();
+                    break;
+                }
+                Ok(None) => std::thread::sleep(Duration::from_millis(2)),
+                Err(_) => break,
+            }
+        }
+        let Ok(out) = child.wait_with_output() else { continue };
+        let text = format!("{}\n{}", String::from_utf8_lossy(&out.stdout), String::from_utf8_lossy(&out.stderr));
+        let b = text.as_bytes();
+        let mut i = 0;
+        while i + 2 < b.len() {
+            if b[i] == b'-' && b[i + 1] == b'-' && b[i + 2].is_ascii_lowercase() && (i == 0 || !b[i - 1].is_ascii_alphanumeric() && b[i - 1] != b'-') {
+                let mut j = i + 2;
+                while j < b.len() && (b[j].is_ascii_lowercase() || b[j].is_ascii_digit() || b[j] == b'-') {
+                    j += 1;
+                }
+                names.push(text[i + 2..j].trim_end_matches('-').to_uppercase().replace('-', "_"));
+                i = j;
+            } else if text[i..].starts_with("[env: ") {
+                let rest = &text[i + 6..];
+                let end = rest.find(|c: char| !(c.is_ascii_alphanumeric() || c == '_')).unwrap_or(rest.len());
+                names.push(rest[..end].to_string());
+                i += 6 + end;
+            } else {
+                i += 1;
+            }
+        }
+    }
+    names.sort();
+    names.dedup();
+    names.retain(|n| !n.is_empty() && !["MNEMONIC", "PASSWORD", "ACCOUNT_INDEX", "HD_PATH", "HELP", "VERSION"].contains(&n.as_str()));
+    cache.lock().unwrap().insert(exe.to_path_buf(), names.clone());
+    names
+}
+
 pub fn run(exe: &Path, inv: &Invocation, timeout: Duration) -> CliOut {
     let stdin = crate::refimpl::unhex(&inv.stdin_hex).unwrap_or_default();
     let args: Vec<OsString> = inv.args.iter().map(OsString::from).collect();
@@ -263,7 +322,22 @@ pub fn run_raw(exe: &Path, args: &[OsString], env: &[(String, String)], stdin: &
         let h = crate::engine::stable_hash(&(args.iter().map(|a| a.to_string_lossy().into_owned()).collect::<Vec<_>>(), env, stdin.len(), stdin.iter().take(64).collect::<Vec<_>>()));
         if h % 3 == 0 {
             let tape = crate::engine::Prng::new(h).bytes(64);
-            for (k, v) in ambient_env(&mut crate::gen::U::new(&tape)) {
+            let mut u = crate::gen::U::new(&tape);
+            let mut chosen = ambient_env(&mut u);
+            // half of these runs also carry one or two variables named after the executable's own options
+            if u.bool() {
+                let names = discovered_env_names(exe);
+                if !names.is_empty() {
+                    for _ in 0..1 + u.below(2) {
+                        let k = names[u.below(names.len())].clone();
+                        let v = ["1", "true", "0", "2", "12", "24", "english", "0x1", "m/0", "yes", "137", ""][u.below(12)].to_string();
+                        if !chosen.iter().any(|(kk, _)| *kk == k) {
+                            chosen.push((k, v));
+                        }
+                    }
+                }
+            }
+            for (k, v) in chosen {
                 if !env.iter().any(|(kk, _)| *kk == k) {
                     cmd.env(&k, &v);
                     ambient.push((k, v));
@@ -291,14 +365,51 @@ pub fn run_raw(exe: &Path, args: &[OsString], env: &[(String, String)], stdin: &
     watchdog().lock().unwrap().push(Watch { pid: child.id(), start: now, deadline: now + timeout, id, last_cpu: 0, idle_since: now, last_probe: now });
     let sin = child.stdin.take();
     let data = stdin.to_vec();
+    // One run in sixteen with input on a pipe or socket gets it in two or three writes with a pause in between
+    // (a writer that is slower than the reader): a reader must read until end of input, not until the first
+    // short read. The pause only has to outlast the child's start-up; if it does not, the run is an ordinary one.
+    let trickle: Vec<usize> = if std::env::var_os("HDV_NO_AMBIENT").is_none() && data.len() >= 2 && (hk / 1000) % 16 == 0 {
+        let a = 1 + (hk / 16_000) as usize % (data.len() - 1);
+        let mut cuts = vec![a];
+        if data.len() - a >= 2 && (hk / 7) % 2 == 0 {
+            cuts.push(a + 1 + (hk / 9_000_000) as usize % (data.len() - a - 1));
+        }
+        cuts
+    } else {
+        vec![]
+    };
+    if !trickle.is_empty() {
+        stdin_kind = match stdin_kind {
+            "socket" => "socket-written-in-several-parts",
+            "pipe" => "pipe-written-in-several-parts",
+            k => k,
+        };
+    }
     let writer = std::thread::spawn(move || {
+        let mut parts: Vec<&[u8]> = vec![];
+        let mut from = 0;
+        for c in &trickle {
+            parts.push(&data[from..*c]);
+            from = *c;
+        }
+        parts.push(&data[from..]);
+        let deliver = |w: &mut dyn Write| {
+            for (i, part) in parts.iter().enumerate() {
+                if i > 0 {
+                    let _ = w.flush();
+                    std::thread::sleep(Duration::from_millis(30));
+                }
+                if w.write_all(part).is_err() {
+                    break;
+                }
+            }
+        };
         if let Some(mut sin) = sin {
-            let _ = sin.write_all(&data);
+            deliver(&mut sin);
             drop(sin);
         } else if let Some(mut s) = socket_parent {
-            let _ = s.write_all(&data);
+            deliver(&mut s);
             let _ = s.shutdown(std::net::Shutdown::Write);
-            // keep our end open until the child is gone (it may still write nothing to it); dropped here
         }
     });
     let out = child.wait_with_output();
